@@ -969,6 +969,16 @@ impl Interpreter {
 
         // Restore environment and finalize exports if we used a module environment
         if let (Some(saved), Some(module_env)) = (saved_env, module_env) {
+            if let Ok(StepResult::Suspended { .. }) = &result {
+                // The run is not over: the host continues it with step(). Keep the module
+                // environment installed and hand the bookkeeping to the step-based path, which
+                // restores the environment and finalizes the exports on completion - exactly as
+                // after prepare().
+                self.active_module_path = module_path;
+                self.active_saved_env = Some(saved);
+                self.active_module_env = Some(module_env);
+                return result;
+            }
             self.env = saved;
 
             // If execution completed successfully, store the main module exports
